@@ -6,7 +6,7 @@ from fractions import Fraction as F
 import numpy as np
 
 from harness.fieldp import red
-from harness.proxies import Tape, Boom, TapeMismatch
+from harness.proxies import Tape, Boom, TapeMismatch, BOOMS
 
 warnings.filterwarnings("ignore")
 
@@ -81,7 +81,7 @@ def run(sc, tape_mode="log", script=None, provider=None):
     def cb(kind):
         st["cb"] += 1
         if st["fault_at"] is not None and st["cb"] == st["fault_at"]:
-            raise Boom("injected fault in %s callback #%d" % (kind, st["cb"]))
+            raise BOOMS[(getattr(sc, "fault_type", 0) + st["cb"]) % len(BOOMS)]("injected fault in %s callback #%d" % (kind, st["cb"]))
 
     def model(x):
         if not isinstance(x, dict):
